@@ -99,6 +99,7 @@ McMoves == {
   MSeg(9, 1, TRUE, FALSE, 2),
   MSeg(9, 1, FALSE, TRUE, 0),
   MAck(99, 1, 1),
+  MAck(1, 3, 1),
   [Base("REFUSE", 10) EXCEPT !.id = 99, !.reason = 2],
   [Base("REFUSE", 10) EXCEPT !.id = 1, !.reason = 2],
   MTerm(FALSE, 0),
